@@ -286,6 +286,14 @@ def crafted_for(base):
         for v in (0, 1, 2, 3, 5):
             ln = bytes(a ^ b for a, b in zip(struct.pack(">H", v), bytes(x ^ 0x8A for x in rev[off + 4:off + 6])))
             out.append((f"guard{i}: checksum setting length={v}", {"kind": "overwrite", "at": gc + off + 4, "data": hx(ln), "stage": "plain"}))
+        # the masked configuration area replaced by constant / short-period bytes (what a wiped or spliced image has there):
+        # the key search sees one single distinct n-gram
+        for nm, pat in (("00", b"\x00"), ("41", b"A"), ("abc", b"abc"), ("0102", b"\x01\x02"), ("fe", b"\xfe")):
+            newarea = (pat * 6144)[:6144]
+            plain_guard = bytes(m_ ^ r_ ^ 0x8A for m_, r_ in zip(area[6144:6144 + 2048], rev[:2048]))
+            newguard = bytes(g_ ^ 0x8A ^ r_ for g_, r_ in zip(plain_guard, newarea[::-1][:2048]))   # (mask = reversed config area)
+            out.append((f"guard{i}: masked config area filled with {nm}",
+                        {"kind": "overwrite", "at": cfg, "data": hx(newarea + newguard), "stage": "plain"}))
         out.append((f"guard{i}: truncated inside guard config", {"kind": "truncate", "at": gc + 9, "stage": "plain"}))
         out.append((f"guard{i}: truncated inside masked config", {"kind": "truncate", "at": cfg + 3000, "stage": "plain"}))
     for i, a in enumerate(base.get("artifacts", [])):
